@@ -374,7 +374,7 @@ func (s *Session) tryReplay(u *Unit, o *Obligation) *ReplayResult {
 	if i := strings.LastIndex(fn, "."); i >= 0 {
 		fn = fn[i+1:]
 	}
-	data := map[string]string{"Obligation": o.Name, "Func": fn}
+	data := map[string]string{"Obligation": o.Name, "Func": fn, "Unit": u.Short}
 	for k, v := range vals {
 		data[k] = v
 	}
@@ -434,7 +434,7 @@ func (s *Session) corpusReplay(u *Unit, o *Obligation, tmplText, why string) *Re
 	rr.PkgDir = pk[1]
 	for vi := range names {
 		for _, cand := range alts[vi] {
-			data := map[string]string{"Obligation": o.Name, "Func": fn}
+			data := map[string]string{"Obligation": o.Name, "Func": fn, "Unit": u.Short}
 			for j, n := range names {
 				data[n] = alts[j][0]
 			}
